@@ -547,7 +547,18 @@ func (e *env) runFragment(codec byte, scheme string, key, iv []byte, samples [][
 	applyWideInit(initF.Init, o.wide)
 	res.init = initF
 	kid, _ := mp4.NewUUIDFromString(kidHex)
-	ipd, err := mp4.InitProtect(initF.Init, key, iv, scheme, kid, nil)
+	// hygiene.go classes 1 and 2: key / iv / kid reach the library in the caller's re-used buffers (refilled in place for
+	// every call, guard bytes behind them), are checked and overwritten right after the call
+	keyIn, ivIn := key, iv
+	kidA := owned(kid)
+	key, iv = ownedShared(0, keyIn), ownedShared(1, ivIn)
+	ipd, err := mp4.InitProtect(initF.Init, key, iv, scheme, mp4.UUID(kidA), nil)
+	if !ownedIntact(key, keyIn) || !ownedIntact(iv, ivIn) || !ownedIntact(kidA, kid) {
+		hygFail("mp4.InitProtect", "writes-into-argument", "InitProtect changed its key, iv or kid argument (or the bytes behind it)")
+	}
+	scribbleBytes(kidA)
+	scribbleBytes(key)
+	scribbleBytes(iv)
 	if err != nil {
 		res.class = "err"
 		res.obs = "err"
@@ -558,7 +569,17 @@ func (e *env) runFragment(codec byte, scheme string, key, iv []byte, samples [][
 	res.trackID = initF.Init.Moov.Trak.Tkhd.TrackID
 	frag := buildFragment(res.trackID, samples, o, r)
 	res.frag = frag
+	key, iv = ownedShared(0, keyIn), ownedShared(1, ivIn) // refilled in place for the next call
+	mdatWhole, mdatLen := guardMdat(frag)
 	p := hx.Try(func() { err = mp4.EncryptFragment(frag, key, iv, ipd) })
+	if !ownedIntact(key, keyIn) || !ownedIntact(iv, ivIn) {
+		hygFail("mp4.EncryptFragment", "writes-into-argument", "EncryptFragment changed its key or iv argument (or the bytes behind it)")
+	}
+	if !guardsAround(mdatWhole, mdatLen) {
+		hygFail("mp4.EncryptFragment", "writes-beyond-sample", "EncryptFragment changed bytes in front of or behind the media data (the mdat payload was a sub-slice of a larger buffer)")
+	}
+	scribbleBytes(key)
+	scribbleBytes(iv)
 	if p != "" {
 		res.class, res.obs = "panic", "panic"
 		return res
